@@ -26,6 +26,7 @@ MODELS = {
         "visit_op": "trans.kotlin.visit",
         "state_op": "trans.kotlin.state",
         "issam_op": "trans.kotlin.issam",
+        "sem_op": "trans.kotlin.sem",
         "state_attrs": ["ident", "is_unit", "is_lambda", "_cast_integers"],
         "model": "lean/Heph/Model/TransKotlin.lean",
         "decl_tags": ["class", "tparam", "field", "func", "param", "var", "super", "varannot", "retannot",
